@@ -14,6 +14,10 @@
 static rc_rel_t rels[RC_MAXREL];
 static int nrels;
 
+#define RC_MAXNET 32
+static rc_net_t nets[RC_MAXNET];
+static int nnets;
+
 /* wave definitions  q = scale . (cv . v + ci . i)  as symbols */
 typedef struct wave_def {
     char scale[8];
@@ -48,6 +52,7 @@ int rc_load(const char *path)
 	return -1;
     }
     nrels = 0;
+    nnets = 0;
     while (fgets(line, sizeof(line), fp) != NULL) {
 	char *f[16];
 	int nf;
@@ -64,6 +69,46 @@ int rc_load(const char *path)
 		have_wave_a = true;
 	    else
 		have_wave_b = true;
+	    continue;
+	}
+	if (nf >= 6 && strcmp(f[0], "net") == 0) {
+	    /* net NAME N NELEM NEQ EKIND */
+	    rc_net_t *t;
+
+	    if (nnets >= RC_MAXNET || 2 * atoi(f[2]) > RC_MAXN) {
+		fprintf(stderr, "relcheck: network table too large\n");
+		fclose(fp);
+		return -1;
+	    }
+	    t = &nets[nnets++];
+	    memset(t, 0, sizeof(*t));
+	    snprintf(t->name, sizeof(t->name), "%s", f[1]);
+	    t->n = atoi(f[2]);
+	    t->nelem = atoi(f[3]);
+	    t->neq = atoi(f[4]);
+	    snprintf(t->ekind, sizeof(t->ekind), "%s", f[5]);
+	    continue;
+	}
+	if (nf >= 7 && strcmp(f[0], "neq") == 0) {
+	    /* neq NAME N K q p coef */
+	    rc_net_t *t = NULL;
+	    int n = atoi(f[2]), k = atoi(f[3]);
+	    rc_cterm_t *ct;
+
+	    for (int i = 0; i < nnets; ++i) {
+		if (strcmp(nets[i].name, f[1]) == 0 && nets[i].n == n)
+		    t = &nets[i];
+	    }
+	    if (t == NULL || k < 1 || k > t->neq || k > RC_MAXN ||
+		    t->nterms[k - 1] >= RC_MAXTERMS) {
+		fprintf(stderr, "relcheck: bad neq line\n");
+		fclose(fp);
+		return -1;
+	    }
+	    ct = &t->eq[k - 1][t->nterms[k - 1]++];
+	    ct->q = f[4][0];
+	    ct->p = atoi(f[5]) - 1;
+	    snprintf(ct->c, sizeof(ct->c), "%s", f[6]);
 	    continue;
 	}
 	if (nf >= 8 && strcmp(f[0], "rel") == 0) {
@@ -115,6 +160,32 @@ const rc_rel_t *rc_relation(const char *type, int n)
 	    return &rels[i];
     }
     return NULL;
+}
+
+const rc_net_t *rc_network(const char *name, int n)
+{
+    for (int i = 0; i < nnets; ++i) {
+	if (strcmp(nets[i].name, name) == 0 && nets[i].n == n)
+	    return &nets[i];
+    }
+    return NULL;
+}
+
+/* coefficient symbol of a constraint: 1, -1, eK, -eK */
+static double complex coef_sym(const char *s, const double complex *e)
+{
+    double sign = 1.0;
+
+    if (*s == '-') {
+	sign = -1.0;
+	++s;
+    }
+    if (strcmp(s, "1") == 0)
+	return sign;
+    if (s[0] == 'e' && s[1] >= '1' && s[1] <= '9')
+	return sign * e[s[1] - '1'];
+    fprintf(stderr, "relcheck: unknown coefficient %s\n", s);
+    exit(3);
 }
 
 /* interpret a coefficient symbol for reference impedance z */
@@ -359,6 +430,38 @@ void rc_tuples(const rc_rel_t *rel, const rc_state_t *st,
     }
 }
 
+/* factor that expresses a port quantity in root-power units */
+static double unit_factor(const rc_term_t *t, const double complex *z0)
+{
+    double r = sqrt(fabs(creal(z0[t->p])));
+
+    switch (t->q) {
+    case 'v': return 1.0 / r;
+    case 'i': return r;
+    default:  return 1.0;
+    }
+}
+
+/*
+ * plain 1-norm condition number of the matrix of independent tuples with
+ * every row expressed in root-power units: large when the network itself is
+ * badly scaled (entries spanning many orders of magnitude), whatever the
+ * algorithm -- no accuracy can be demanded then
+ */
+static double cond_plain(int n, const double complex *m, const rc_term_t *terms,
+	const double complex *z0)
+{
+    double complex s[RC_MAXN * RC_MAXN], inv[RC_MAXN * RC_MAXN];
+
+    for (int i = 0; i < n; ++i) {
+	double u = unit_factor(&terms[i], z0);
+
+	for (int j = 0; j < n; ++j)
+	    s[i * n + j] = m[i * n + j] * u;
+    }
+    return rc_invert(n, s, inv);
+}
+
 static bool all_finite(int n, const double complex *x)
 {
     for (int i = 0; i < n; ++i) {
@@ -408,7 +511,8 @@ void rc_check(const rc_rel_t *rin, const double complex *min,
     }
     if (!all_finite(n * n, Dm) || !all_finite(n * n, Im))
 	return;
-    res->cond = cond_equilibrated(n, Im, scale, NULL);
+    res->cond = fmax(cond_equilibrated(n, Im, scale, NULL),
+	    cond_plain(n, Im, rout->ind, z0));
     if (!(res->cond <= cond_max))
 	return;
     res->decided = true;
@@ -469,6 +573,7 @@ double rc_reference(const rc_rel_t *rin, const double complex *min,
     cond = cond_equilibrated(n, Im, scale, Iinv);
     if (cond == HUGE_VAL)
 	return HUGE_VAL;
+    cond = fmax(cond, cond_plain(n, Im, rout->ind, z0));
     for (int k = 0; k < n; ++k) {
 	for (int m = 0; m < n; ++m) {
 	    double complex acc = 0.0;
@@ -516,6 +621,8 @@ void rc_check_zin(const rc_rel_t *rin, const double complex *min,
     if (!all_finite(n * n, A))
 	return;
     res->cond = cond_equilibrated(n, A, scale, Ainv);
+    if (res->cond != HUGE_VAL)
+	res->cond = fmax(res->cond, rc_invert(n, A, Ainv));
     if (!(res->cond <= cond_max))
 	return;
     int ports_decided = 0;
@@ -534,12 +641,20 @@ void rc_check_zin(const rc_rel_t *rin, const double complex *min,
 	/* open circuit (no current): input impedance unbounded, no verdict */
 	if (!(cabs(st.i[k]) * cabs(z0[k]) >= 1e-4 * cabs(st.v[k])))
 	    return;
-	/* voltage or current that only exists as a small difference of
-	 * large terms: the reference quotient itself is inaccurate */
-	if (cabs(st.v[k]) < 1e-4 * st.mv[k] || cabs(st.i[k]) < 1e-4 * st.mi[k])
-	    continue;
-	++ports_decided;
 	ref = st.v[k] / st.i[k];
+	/* voltage or current that only exists as a small difference of
+	 * large terms: the reference quotient carries their rounding error;
+	 * decided only if that stays a tenth below the tolerance, measured
+	 * like the deviation (an exact short, Zin = 0, is fine) */
+	{
+	    double ai = cabs(st.i[k]);
+	    double unc = 4.0 * 2.2e-16 * (st.mv[k] / ai +
+		    cabs(st.v[k]) * st.mi[k] / (ai * ai));
+
+	    if (!(unc <= 1.0e-10 * fmax(cabs(ref), 1e-3 * cabs(z0[k]))))
+		continue;
+	}
+	++ports_decided;
 	if (!isfinite(creal(zin[k])) || !isfinite(cimag(zin[k]))) {
 	    worst = HUGE_VAL;
 	    continue;
@@ -550,4 +665,91 @@ void rc_check_zin(const rc_rel_t *rin, const double complex *min,
     }
     res->decided = ports_decided > 0;
     res->resid = worst;
+}
+
+/* coefficients (cv, ci) with which term t reads the state of its port */
+static void term_coefs(const rc_term_t *t, const double complex *z0,
+	double complex *cv, double complex *ci)
+{
+    double complex z = z0[t->p];
+
+    switch (t->q) {
+    case 'v': *cv = 1.0; *ci = 0.0; break;
+    case 'i': *cv = 0.0; *ci = 1.0; break;
+    case 'a':
+	*cv = sym(wave_a.scale, z) * sym(wave_a.cv, z);
+	*ci = sym(wave_a.scale, z) * sym(wave_a.ci, z);
+	break;
+    default:
+	*cv = sym(wave_b.scale, z) * sym(wave_b.cv, z);
+	*ci = sym(wave_b.scale, z) * sym(wave_b.ci, z);
+	break;
+    }
+    *cv *= (double)t->s;
+    *ci *= (double)t->s;
+}
+
+double rc_matrix_of_network(const rc_net_t *net, const double complex *e,
+	const rc_rel_t *rel, const double complex *z0, double complex *m)
+{
+    int n = net->n, N = 2 * net->n;
+    double complex W[RC_MAXN * RC_MAXN], Ws[RC_MAXN * RC_MAXN],
+		   Winv[RC_MAXN * RC_MAXN], tmp[RC_MAXN * RC_MAXN];
+    double cond;
+
+    if (rel->n != n || N > RC_MAXN || net->neq != n)
+	return HUGE_VAL;
+    memset(W, 0, sizeof(W));
+    /* rows 0..n-1: the network's constraints on (v_0..v_n-1, i_0..i_n-1) */
+    for (int k = 0; k < n; ++k) {
+	for (int t = 0; t < net->nterms[k]; ++t) {
+	    const rc_cterm_t *ct = &net->eq[k][t];
+	    int col = ct->q == 'v' ? ct->p : n + ct->p;
+
+	    W[k * N + col] += coef_sym(ct->c, e);
+	}
+    }
+    /* rows n..2n-1: the independent tuple of the representation */
+    for (int k = 0; k < n; ++k) {
+	double complex cv, ci;
+
+	term_coefs(&rel->ind[k], z0, &cv, &ci);
+	W[(n + k) * N + rel->ind[k].p] += cv;
+	W[(n + k) * N + n + rel->ind[k].p] += ci;
+    }
+    /* conditioning: columns in root-power units, rows to unit size */
+    for (int r = 0; r < N; ++r) {
+	double mx = 0.0;
+
+	for (int cidx = 0; cidx < N; ++cidx) {
+	    int p = cidx < n ? cidx : cidx - n;
+	    double u = sqrt(fabs(creal(z0[p])));
+
+	    Ws[r * N + cidx] = W[r * N + cidx] * (cidx < n ? u : 1.0 / u);
+	    mx = fmax(mx, cabs(Ws[r * N + cidx]));
+	}
+	if (!(mx > 0.0) || !isfinite(mx))
+	    return HUGE_VAL;
+	for (int cidx = 0; cidx < N; ++cidx)
+	    Ws[r * N + cidx] /= mx;
+    }
+    cond = rc_invert(N, Ws, tmp);
+    if (cond == HUGE_VAL || rc_invert(N, W, Winv) == HUGE_VAL)
+	return HUGE_VAL;
+    /* column j of m: dep(state) for the state with ind = e_j */
+    for (int k = 0; k < n; ++k) {
+	double complex cv, ci;
+
+	term_coefs(&rel->dep[k], z0, &cv, &ci);
+	for (int j = 0; j < n; ++j) {
+	    /* state = column n + j of W^-1 */
+	    double complex v = Winv[rel->dep[k].p * N + n + j];
+	    double complex i = Winv[(n + rel->dep[k].p) * N + n + j];
+
+	    m[k * n + j] = cv * v + ci * i;
+	}
+    }
+    if (!all_finite(n * n, m))
+	return HUGE_VAL;
+    return cond;
 }
